@@ -368,6 +368,21 @@ def build(thorough):
 
 EMPTY_SHAPES = ["struct S;", "struct S();", "struct S {}", "enum S {}", "enum S { A() }", "enum S { A {} }", "enum S { A(), B {}, Cc }", "enum S { A(H<(), 1>), B() }",
                 "enum S { A { x: H<(), 1> }, B {} }", "enum S { A(), B() }", "enum S { Cc, A {} }", "union S { a: u8 }"]
+# plain shapes in every syntactic variation, field types that implement every trait any derive needs (distinct per position, so
+# that no two generated impls can overlap): the support table above lists what the documentation promises per derive; here nothing
+# is promised - whatever a derive ACCEPTS must compile
+_C1, _C2 = "H<(), 1>", "H<(), 2>"
+PLAIN_SHAPES = [s.replace("C1", _C1).replace("C2", _C2) for s in [
+    "struct S(C1);", "struct S(C1,);", "struct S { a: C1 }", "struct S { a: C1, }", "struct S(pub C1);", "struct S { pub(crate) a: C1 }", "pub(crate) struct S(C1);",
+    "struct S(C1, C2);", "struct S { a: C1, b: C2 }", "struct S(C1, C2,);",
+    "enum S { A }", "enum S { A, }", "enum S { A, B }", "enum S { A = 1, B }", "#[repr(u8)] enum S { A = 1, B = 3 }", "#[repr(i8)] enum S { A = -1, B }",
+    "enum S { A(C1) }", "enum S { A { a: C1 } }", "enum S { A(C1), B(C2) }", "enum S { A(C1), B { a: C2 } }", "enum S { A(C1), B }", "enum S { B, A(C1) }",
+    "enum S { A(C1, C2), B }", "enum S { A { a: C1, b: C2 } }", "enum S { A(C1,), }", "enum S { A { a: C1, }, }", "#[repr(u8)] enum S { A(C1) = 3, B = 5 }",
+    "struct S<const N: usize>(H<(), N>);", "struct S<T>(H<T, 1>);", "struct S<T = u8>(H<T, 1>);", "struct S<T>(H<T, 1>) where T: Clone;",
+    "struct S<T> where T: Clone { a: H<T, 1> }", "struct S<T> where T: Clone, { a: H<T, 1> }", "struct S<'a, T: 'a>(H<&'a T, 1>);", "struct S<'a, 'b: 'a, T: 'a + 'b>(H<&'a &'b T, 1>);",
+    "enum S<T> { A(H<T, 1>), B }", "enum S<'a, T: 'a, const N: usize> { A(H<&'a T, N>) }", "enum S<T, U> { A(H<T, 1>), B { b: H<U, 2> } }",
+    "struct S<T>(H<T, 1>, H<T, 2>);", "struct S<T, U> { a: H<T, 1>, b: H<U, 2> }",
+]]
 PREREQ = {"Error": "#[derive(Debug, derive_more::Display)] ", "Sum": "#[derive(derive_more::Add)] ", "Product": "#[derive(derive_more::Mul)] #[mul(forward)] ",
           "DerefMut": "#[derive(derive_more::Deref)] ", "IndexMut": "#[derive(derive_more::Index)] "}
 PREREQ_REQ = {"Error": ("Display", ""), "Sum": ("Add", ""), "Product": ("Mul", "#[mul(forward)] "), "DerefMut": ("Deref", ""), "IndexMut": ("Index", "")}
@@ -378,7 +393,7 @@ def part_accepted_compiles(chk, thorough):
     documentation says least.  Whatever a derive does with them, it must be one of two things: a diagnostic, or code that
     compiles - every (derive, shape) the expander ACCEPTS in-process is compiled."""
     derives = sorted(table())
-    pairs = [(d, it) for d in derives for it in EMPTY_SHAPES]
+    pairs = [(d, it) for d in derives for it in EMPTY_SHAPES + PLAIN_SHAPES]
     res = svc([{"derive": d, "item": it} for d, it in pairs])
     # the derive whose impl the subject builds on must accept the shape too, or there is nothing to compile against
     pre = svc([{"derive": PREREQ_REQ[d][0], "item": PREREQ_REQ[d][1] + it} if d in PREREQ_REQ else {"derive": "Debug", "item": it} for d, it in pairs])
@@ -405,7 +420,7 @@ def part_accepted_compiles(chk, thorough):
         msg = re.sub(r"g\d+::", "", r.diags[0]["message"]) if r.diags else "?"
         chk.violation("rustc: derive(%s) accepts a degenerate shape but the expansion %s: %s" % (c.meta["derive"], "does not compile" if r.compile == "error" else "warns", re.sub(r"`[^`]*`", "`..`", msg)[:80]),
                       c.meta["src"], "; ".join(re.sub(r"g\d+::", "", d["message"]) for d in r.diags[:4]) + "\n" + (r.diags[0]["rendered"][:900] if r.diags else ""))
-    chk.part("degenerate_shapes", shapes=EMPTY_SHAPES, derives=len(derives), pairs=len(pairs), accepted_and_compiled=len(cases),
+    chk.part("degenerate_shapes", shapes=EMPTY_SHAPES, plain_shapes=PLAIN_SHAPES, derives=len(derives), pairs=len(pairs), accepted_and_compiled=len(cases),
              oracle="accepted in-process => compiles under #![deny(warnings)]; a diagnostic is the other allowed outcome (totality itself is C18)")
 
 
